@@ -1,7 +1,8 @@
 #!/bin/sh
 # Regression of the checks' detection power: apply each kept seeded change to the repository under test
 # (VERIF_REPO, default /repo), run the quick check of its property, undo it.  One line per change; exit 1 if one is
-# not reported.  usage: tools/run_seeded.sh [name ...]
+# not reported.  (meta.check_property names the property whose check reports it, when that is not the property the
+# change was written against.)  usage: tools/run_seeded.sh [name ...]
 V=$(cd "$(dirname "$0")/.." && pwd)
 R=${VERIF_REPO:-/repo}
 cd "$V"
@@ -9,7 +10,7 @@ git -C "$R" diff --quiet || { echo "$R is dirty"; exit 2; }
 NAMES="$@"; [ -z "$NAMES" ] && NAMES=$(ls seeded)
 BAD=0
 for n in $NAMES; do
-  P=$(python3 -c "import json;print(json.load(open('seeded/$n/meta.json'))['property'])")
+  P=$(python3 -c "import json;m=json.load(open('seeded/$n/meta.json'));print(m.get('check_property', m['property']))")
   if ! git -C "$R" apply --check "$V/seeded/$n/patch.diff" 2>/dev/null; then echo "$n ($P): patch no longer applies (the code it changed was changed since)"; continue; fi
   git -C "$R" apply "$V/seeded/$n/patch.diff"
   OUT=$(./check $P --tier quick 2>&1 | grep -v "^WARNING" | tail -4)
